@@ -60,6 +60,8 @@ class Sim:
         self.preempts = {(s, int(k)) for s, k in preempts}
         self.preempt_prob = preempt_prob if sched_seed else 0.0
         self.hot = set(hot) | {s for s, _ in self.preempts}
+        # an entry ending in ".py" makes every function of that source file (path suffix inside the package) hot
+        self.hot_files = tuple(h for h in self.hot if h.endswith(".py"))
         self.spin = set(spin)
         self.trace_pkg = trace_pkg or os.path.join(os.environ.get("VF_REPO", "/repo"), "secsgem")
         self.site_counts = {}
@@ -168,7 +170,7 @@ class Sim:
         name = code.co_name
         if name in self.spin and code.co_filename.startswith(self.trace_pkg):
             return self._spin_trace
-        if name in self.hot and code.co_filename.startswith(self.trace_pkg):
+        if (name in self.hot or (self.hot_files and code.co_filename.endswith(self.hot_files))) and code.co_filename.startswith(self.trace_pkg):
             return self._hot_trace
         return None
 
